@@ -839,6 +839,16 @@ func (c *Conn) handleReturn(ctx context.Context, ret rpccp.Return, releaseRet ca
 	}
 	canceled := q.flags&finished != 0
 	q.flags |= finished
+	if ret.ReleaseParamCaps() {
+		// The remote vat has dropped the references it received in the
+		// call's parameters.
+		rl, err := c.releaseExports(q.paramCaps)
+		if err != nil {
+			c.report(annotate(err).errorf("incoming return: release parameter capabilities"))
+		}
+		defer rl.release() // c.mu is not held when handleReturn returns
+	}
+	q.paramCaps = nil
 	if canceled {
 		// Wait for cancelation task to write the Finish message.  If the
 		// Finish message could not be sent to the remote vat, we can't
